@@ -67,8 +67,10 @@ def run_case(stream, case):
     try:
         r = stream.check(case)
     except CaseTimeout:
+        driver.discard()  # the model process may be one reply out of step: start a fresh one for the next case
         r = dict(ok=False, kind="oracle", clause="timeout", sig={"clause": "timeout"}, detail="no answer within %ss (watchdog)" % stream.timeout, nontrivial=True, desc="timeout")
     except Exception as e:  # harness or implementation raised where nothing should raise
+        driver.discard()
         if "unknown function id" in str(e):  # the extracted driver predates this property's Entry.v (its build is broken): no verdict
             return dict(ok=True, kind="oracle", clause="", sig={}, nontrivial=False, desc="model_unavailable", wall=0.0)
         r = dict(ok=False, kind="oracle", clause="exception:" + type(e).__name__, sig={"clause": "exception", "exc": type(e).__name__}, detail=traceback.format_exc()[-3000:], nontrivial=True, desc="exception")
